@@ -66,7 +66,13 @@ def make_plan(seed: int, tier: str, index: int) -> dict[str, Any]:
     cap = PAIRS_PER_CHART[tier]
     if len(pairs) > cap:
         pairs = [pairs[i] for i in sorted(f.sample(range(len(pairs)), cap))]
-    return {"property": PROP, "seed": seed, "doc": doc, "corruptions": singles + pairs}
+    plan = {"property": PROP, "seed": seed, "doc": doc, "corruptions": singles + pairs,
+            "retry_mod": f.choice([2, 3, 5]), "retry_off": f.randrange(5)}
+    if f.random() < 0.25:
+        # the stored file is read through a reader whose sized reads / readline return short
+        # (legal); a correct tree reads it all the same
+        plan["reader_chunk"] = f.choice([1, 7, 13, 64, 257])
+    return plan
 
 
 def governed_ticks(doc: dict[str, Any]) -> list[int]:
@@ -228,6 +234,16 @@ def apply_corruption(doc: dict[str, Any], c: dict[str, Any]) -> tuple[str, str, 
     return gen.render_sections(secs), label, info
 
 
+def _parse(text: str, chunk: int | None) -> Any:
+    from detsim import simfs, world
+
+    if not chunk:
+        return world.parse_text(text)
+    from chartparse.chart import Chart
+
+    return Chart.from_file(simfs.SimText(text, chunk=chunk))
+
+
 def execute(plan: dict[str, Any]) -> dict[str, Any]:
     import hashlib
 
@@ -239,13 +255,14 @@ def execute(plan: dict[str, Any]) -> dict[str, Any]:
     violations: list[dict[str, Any]] = []
     fired: dict[str, int] = {}
     counters = {"must_raise": 0, "may_parse": 0, "base": 0, "unspecified": 0, "queries": 0,
-                "may_parse_parsed": 0, "ok": 0, "n_a": 0, "pairs": 0, "pairs_must_raise": 0}
+                "may_parse_parsed": 0, "ok": 0, "n_a": 0, "pairs": 0, "pairs_must_raise": 0, "retries": 0,
+                "short_reading_reader": 1 if plan.get("reader_chunk") else 0}
     nontrivial = []
     base_chart = None
     tempo_ticks = [t for t, _ in doc["tempos"]]
     probe_ticks = sorted(set(tempo_ticks + [t + 1 for t in tempo_ticks] + governed_ticks(doc)
                              + [0, max_tick(doc) + 7]))
-    for c in plan["corruptions"]:
+    for ci_, c in enumerate(plan["corruptions"]):
         text, label, info = apply_corruption(doc, c)
         kind = c["kind"]
         counters[label.replace("-", "_")] += 1
@@ -263,10 +280,22 @@ def execute(plan: dict[str, Any]) -> dict[str, Any]:
         chart = None
         err: BaseException | None = None
         try:
-            chart = world.parse_text(text)
+            chart = _parse(text, plan.get("reader_chunk"))
         except BaseException as e:  # noqa: BLE001
             err = e
         ev.update(f"{kind}:{'ok' if err is None else type(err).__name__};".encode())
+        if (err is not None and label == "must-raise" and isinstance(err, ValueError)
+                and (ci_ + plan.get("retry_off", 0)) % plan.get("retry_mod", 3) == 0):
+            # a caller that retries: the same untrustworthy file must be rejected again
+            counters["retries"] += 1
+            try:
+                chart = _parse(text, plan.get("reader_chunk"))
+                err = None
+                kind = kind + "@retry"
+            except BaseException as e:  # noqa: BLE001
+                err = e
+                if not isinstance(e, ValueError):
+                    kind = kind + "@retry"
         what = None
         if label == "must-raise":
             if err is None:
